@@ -37,7 +37,10 @@ FLOAT_DTYPES = ("float64", "float32")
 INT_DTYPES = ("int8", "int16", "int32", "int64")
 DTYPES = FLOAT_DTYPES + INT_DTYPES          # what enspara's libdist kernels accept (no unsigned, no float16)
 LAYOUTS = ("C", "F", "strided")
-METRICS = ("euclidean", "manhattan", "chebyshev")   # 'chebyshev' is passed to the library as a user callable
+# 'chebyshev' and 'sqeuclid' are passed to the library as user callables; 'sqeuclid' (squared euclidean, the callable
+# the library's own tests use) does NOT obey the triangle inequality, so callers must not ask for the shortcut with it
+METRICS = ("euclidean", "manhattan", "chebyshev", "sqeuclid")
+TRUE_METRICS = ("euclidean", "manhattan", "chebyshev")
 
 
 def chebyshev_callable(X, y):
@@ -51,12 +54,24 @@ def chebyshev_callable(X, y):
     return np.abs(X - y[None, :]).max(axis=1)
 
 
+def sqeuclid_callable(X, y):
+    """Squared euclidean distance as a user-supplied callable (not a metric: no triangle inequality)."""
+    X = np.asarray(X, dtype=np.float64)
+    y = np.asarray(y, dtype=np.float64)
+    if X.shape[0] == 0:
+        return np.zeros(0, dtype=np.float64)
+    d = X - y[None, :]
+    return np.sum(d * d, axis=1)
+
+
 def library_metric(name):
     """The object to pass as `metric` / `distance_method` to enspara."""
     if name in ("euclidean", "manhattan"):
         return name
     if name == "chebyshev":
         return chebyshev_callable
+    if name == "sqeuclid":
+        return sqeuclid_callable
     raise ValueError(name)
 
 
@@ -71,6 +86,8 @@ def ref_dist(metric, X, y):
         return np.sum(np.abs(diff), axis=1)
     if metric == "chebyshev":
         return np.max(np.abs(diff), axis=1) if diff.shape[0] else np.zeros(0)
+    if metric == "sqeuclid":
+        return np.sum(diff * diff, axis=1)
     raise ValueError(metric)
 
 
